@@ -226,8 +226,8 @@ func ctxScenario(r *rand.Rand, sum *sumT) {
 	if bgN > 0 {
 		time.Sleep(time.Duration(1+r.Intn(5)) * time.Millisecond)
 	}
-	// the call under test
-	ctx, cancel := context.WithCancel(context.Background())
+	// the call under test (every other one with a context that is cancelled with a cause)
+	ctx, cancel := newCancelCtx(r.Intn(2) == 1)
 	var ends time.Time
 	var endMu sync.Mutex
 	end := func() {
